@@ -313,12 +313,119 @@ def mon_c09_msg(spec, run):
                 bad.append(("unregistered", f"callback {cb} was invoked for {text!r} although it was not registered"))
     # never breaks the connection
     if lc["fault"] is None:
-        if lc["thread_exc"] is not None:
-            e = next(x for x in tr if x["seq"] == lc["thread_exc"])
-            bad.append(("thread-died", f"thread {e['th']} died with {e['exc']}: {e.get('msg')}"))
+        for e in tr:
+            if e["k"] == "thread_exc" and not (e["th"].startswith("S") and lc["close_call"] is not None and e["seq"] > lc["close_call"]):
+                bad.append(("thread-died", f"thread {e['th']} died with {e['exc']}: {e.get('msg')}"))
+                break
         if any(e["k"] == "disc_cb" for e in tr):
             bad.append(("disconnected", "the disconnect callback was invoked although the link never failed"))
     return bad
 
 
 MONITORS = {"C01": mon_c01, "C08": mon_c08, "C12": mon_c12, "C20": mon_c20, "C09": mon_c09_msg}
+
+
+# ------------------------------------------------------------------------------------------------ C15 / C16
+JOIN_US = 2_000_000
+
+
+def mon_c16(spec, run):
+    bad = []
+    tr = run.trace
+    cs = calls(tr)
+    closes = [c for c in cs if c["op"][0] == "close"]
+    if not closes:
+        return bad
+    fault = first_seq(tr, lambda e: e["k"] in ("fault_injected", "write_fault", "read_fault"))
+    for c in closes:
+        if c["ret"] is None:
+            bad.append(("hang", f"close() called by {c['th']} ({c['ctx']}) at t={c['t_call'] / 1e6:.3f}s never returned"))
+        elif c["exc"] is not None:
+            bad.append(("raised", f"close() called by {c['th']} ({c['ctx']}) raised {c['exc']}: {c.get('msg')}"))
+        elif c["t_ret"] - c["t_call"] > 2 * JOIN_US + 100_000:
+            bad.append(("slow", f"close() took {(c['t_ret'] - c['t_call']) / 1e6:.2f}s"))
+    first_call = min(c["call"] for c in closes)
+    if fault is None:
+        for e in tr:
+            if e["k"] == "disc_cb" and e["seq"] > first_call:
+                bad.append(("disc-cb", "the disconnect callback was invoked after a planned close() on a healthy link"))
+                break
+    returned = [c for c in closes if c["ret"] is not None and c["exc"] is None]
+    connected = any(c["op"][0] == "connect" and c["exc"] is None for c in cs)
+    if returned and connected:
+        r0 = min(returned, key=lambda c: c["ret"])
+        for e in tr:
+            if e["seq"] <= r0["ret"]:
+                continue
+            if e["k"] == "write":
+                bad.append(("write-after", f"{bytes.fromhex(e['data'])[:60]!r} was written to the device after close() had returned"))
+                break
+            if e["k"] in ("msg_cb", "disc_cb"):
+                bad.append(("callback-after", f"a {'message' if e['k'] == 'msg_cb' else 'disconnect'} callback was started after close() had returned"))
+                break
+        if not any(e["k"] == "port_close" and e["seq"] < r0["ret"] for e in tr):
+            bad.append(("port-open", "the transport is still open after close() returned"))
+        for role in ("R", "S"):
+            ex = [e for e in tr if e["k"] == "thread_exit" and e["th"] == role]
+            started = any(e["th"] == role for e in tr)
+            if started and not ex:
+                bad.append(("thread-alive", f"library thread {role} never terminated after close()"))
+            elif ex and ex[0]["t"] > r0["t_ret"] + 2 * JOIN_US + 100_000:
+                bad.append(("thread-late", f"library thread {role} terminated {(ex[0]['t'] - r0['t_ret']) / 1e6:.2f}s after close() returned"))
+    return bad
+
+
+def mon_c15(spec, run):
+    bad = []
+    tr = run.trace
+    cs = calls(tr)
+    rf = [e for e in tr if e["k"] == "read_fault"]
+    if not rf:
+        return bad
+    f = rf[0]["seq"]
+    closes = [c for c in cs if c["op"][0] == "close"]
+    discs = [e for e in tr if e["k"] == "disc_cb"]
+    has_cb = spec.get("disconnect_cb", True)
+    rexit = first_seq(tr, lambda e: e["k"] == "thread_exit" and e["th"] == "R", 10 ** 12)
+    close_before = [c for c in closes if c["call"] < rexit]
+    if len(discs) > 1:
+        bad.append(("twice", f"the disconnect callback was invoked {len(discs)} times"))
+    if has_cb and not close_before and len(discs) == 0:
+        bad.append(("never", "the transport failed but the disconnect callback was never invoked"))
+    if discs:
+        d = discs[0]
+        if d["t"] - rf[0]["t"] > JOIN_US + SPACING_US + 1000:
+            bad.append(("late", f"the disconnect callback came {(d['t'] - rf[0]['t']) / 1e6:.2f}s after the fault was read"))
+        sx = [e for e in tr if e["k"] == "thread_exit" and e["th"] == "S"]
+        if not sx:
+            bad.append(("sender-alive", "the sender thread never terminated after the disconnect"))
+        for e in tr:
+            if e["seq"] <= d["seq"]:
+                continue
+            if e["k"] == "write":
+                bad.append(("write-after", f"{bytes.fromhex(e['data'])[:60]!r} was written after the disconnect callback"))
+                break
+            if e["k"] == "msg_cb":
+                bad.append(("callback-after", "a message callback was invoked after the disconnect callback"))
+                break
+        for c in cs:
+            if c["call"] > d["seq"] and c["op"][0] in ("put", "get", "raw", "close", "snap", "connected"):
+                if c["exc"] is not None:
+                    bad.append(("api-raises", f"{c['op'][0]}() on the dead connection raised {c['exc']}"))
+                    break
+                if c["op"][0] == "connected" and c["res"] is not False and c["ret"] is not None:
+                    bad.append(("still-connected", "the connection still reports itself as connected after the disconnect callback"))
+                    break
+    rx = [e for e in tr if e["k"] == "thread_exit" and e["th"] == "R"]
+    if not rx:
+        bad.append(("reader-alive", "the reader thread never terminated after the transport failed"))
+    # commands still queued when the fault was read are discarded: after the reader finished connection_lost nothing is written
+    if rx:
+        for e in tr:
+            if e["seq"] > rx[0]["seq"] and e["k"] == "write":
+                bad.append(("write-after", f"{bytes.fromhex(e['data'])[:60]!r} was written after the connection was lost"))
+                break
+    return bad
+
+
+MONITORS.update({"C15": mon_c15, "C16": mon_c16})
